@@ -1,4 +1,4 @@
-import QipVerif.Lemmas.SpinChainTop
+import QipVerif.Lemmas.SpinChainExp
 /-!
 # C06 — noise-free spin-chain pulse compilation reproduces the circuit exactly
 
@@ -12,18 +12,22 @@ Property theorems only.  They are about
   which the driver `drv_spinchain` runs with `Rat` against the implementation;
 * the model of `ModelProcessor.transpile` of C13 (`Transpile.transpileV`, either shape of the source).
 
-**Trusted analytic facts, used as definitions** (`Lemmas/SpinChainReal.lean`): the ideal propagator of a
-segment on which the control Hamiltonian `c·P` is driven with the constant coefficient `u` for the time `T`:
-`segProp P (u·T·c) = cos φ·1 − i sin φ·P` for `P² = 1`, and `exchProp (u·T·c)`, the block form of
-`exp(−iφ(XX+YY))`.  `instrProp` is the propagator of one compiled instruction built from them.
+**The ideal propagator of a constant segment is Mathlib's matrix exponential** (`Lemmas/MatExp.lean`,
+`Lemmas/SpinChainExp.lean`): a pulse that drives the control Hamiltonian `c·P` of its label with the constant
+coefficient `u` for the time `T` has the propagator `MatExp.evolve (u • c • P) T = exp(−i·T·u·c·P)`
+(`NormedSpace.exp` on complex matrices).  The closed forms `segProp P (u·T·c) = cos φ·1 − i sin φ·P` (`P² = 1`) and
+`exchProp (u·T·c)` (block form for `XX+YY`), which earlier versions took as definitions, are PROVED equal to it
+(`propagator_is_exponential`); `instrPropExp` is the exponential of the Hamiltonian the model puts on the
+instruction's channel, embedded in the register, and equals `instrProp` for every instruction.  The theorems
+`…_exp` below are stated with the exponential; the older statements with the closed forms are kept.
 
 What is NOT proved here (see notes/C06.md): that the slice product `run_analytically` computes from the
-concatenated pulses equals the product of the `instrProp`s in time order (C12 + C14 + `exp(A+B) = exp A·exp B`
+concatenated pulses equals the product of the instructions' propagators in time order (C12 + C14 + `exp(A+B) = exp A·exp B`
 for operators on disjoint qubits; compared numerically to 1e-9 on every check), and the routing stage of the
 transpilation theorem (`RouteStageDen`, a named hypothesis, as in C13).
 -/
 namespace QipVerif.C06
-open QipVerif QipVerif.Gen QipVerif.Gen.SC QipVerif.SpinChain QipVerif.Transpile QipVerif.Decomp Matrix
+open QipVerif QipVerif.Gen QipVerif.Gen.SC QipVerif.SpinChain QipVerif.Transpile QipVerif.Decomp Matrix QipVerif.MatExp
 
 /-! ## ties to the regenerated tables -/
 
@@ -105,6 +109,56 @@ theorem closed_forms_are_groups :
     (∀ P : Matrix (Fin 2) (Fin 2) ℂ, segProp P 0 = 1) ∧
     (∀ φ ψ : ℝ, exchProp (φ + ψ) = exchProp φ * exchProp ψ) ∧ exchProp 0 = 1 :=
   ⟨segProp_add, segProp_zero, exchProp_add, exchProp_zero⟩
+
+
+/-! ## the ideal propagator is the matrix exponential -/
+
+/-- **propagator_is_exponential.**  The closed forms are theorems about Mathlib's matrix exponential
+`evolve H T = exp(−i·T·H)`: for every complex 2×2 matrix with `P² = 1` and all real `u, T, c`:
+`cos(uTc)·1 − i sin(uTc)·P = exp(−i·T·u·c·P)`; for the exchange operator `Σ sign·σ_a⊗σ_b` read from the regenerated
+`ctlG_terms` (`= XX + YY`): the block form `exchProp (uTc) = exp(−i·T·u·c·(XX+YY))`; and for every instruction,
+chain length and topology the propagator built from the closed forms is the exponential of the control Hamiltonian
+of the instruction's channel on the whole register (`none` on both sides iff the label names no control). -/
+theorem propagator_is_exponential :
+    (∀ (P : Matrix (Fin 2) (Fin 2) ℂ), P * P = 1 → ∀ u T c : ℝ,
+      segProp P (u * T * c) = evolve ((u : ℂ) • (c : ℂ) • P) T) ∧
+    (∀ op, pauliMat op * pauliMat op = 1) ∧
+    (∀ u T c : ℝ, exchProp (u * T * c) = evolve ((u : ℂ) • (c : ℂ) • termsMat ctlG_terms) T) ∧
+    (∀ (circular : Bool) (N : ℕ) (i : Instr ℝ), instrPropExp circular N i = instrProp circular N i) :=
+  ⟨segProp_eq_exp, pauliMat_sq, exchProp_eq_exp, instrPropExp_eq⟩
+
+example : termsMat ctlG_terms = (2 : ℂ) • !![0, 0, 0, 0; 0, 0, 1, 0; 0, 1, 0, 0; 0, 0, 0, 0] := termsMat_ctlG
+
+/-- **rot_calibrated_exp.**  `rot_calibrated` with the ideal propagator DEFINED as the matrix exponential: for every
+angle `θ` and strength `Ω ≠ 0`, `exp(−i · duration · coeff · (2π·σx)) = RX(θ)` and `exp(−i · duration · coeff · (2π·σz))
+= RZ(θ)`, where `coeff`, `duration` are what `generate_pulse_shape` returns for the area `θ/2/π·½` and `2π·σ` is the
+control Hamiltonian `SpinChainModel` puts on the labels `sx<k>`, `sz<k>` (all read from the regenerated tables). -/
+theorem rot_calibrated_exp (θ Ω : ℝ) (hΩ : Ω ≠ 0) :
+    evolve (((pulseCoeff Ω (rotArea Real.pi θ) : ℝ) : ℂ) • ((ctlA_coef Real.pi : ℝ) : ℂ) • pauliMat ctlA_op)
+      (pulseDur Ω (rotArea Real.pi θ)) = G.rx_ θ ∧
+    evolve (((pulseCoeff Ω (rotArea Real.pi θ) : ℝ) : ℂ) • ((ctlB_coef Real.pi : ℝ) : ℂ) • pauliMat ctlB_op)
+      (pulseDur Ω (rotArea Real.pi θ)) = G.rz_ θ := by
+  obtain ⟨h1, h2, _⟩ := rot_calibrated θ Ω hΩ
+  exact ⟨by rw [← segProp_eq_exp _ (pauliMat_sq _)]; exact h1, by rw [← segProp_eq_exp _ (pauliMat_sq _)]; exact h2⟩
+
+example : evolve (((pulseCoeff (1 / 4 : ℝ) (rotArea Real.pi (-7)) : ℝ) : ℂ) • ((ctlA_coef Real.pi : ℝ) : ℂ) • pauliMat ctlA_op)
+    (pulseDur (1 / 4 : ℝ) (rotArea Real.pi (-7))) = G.rx_ (-7) := (rot_calibrated_exp (-7) (1 / 4) (by norm_num)).1
+
+/-- **iswap_calibrated_exp / sqrtiswap_calibrated_exp.**  For every strength `g ≠ 0`:
+`exp(−i · duration · coeff · 2π(XX+YY))` is ISWAP for the area `−1/8` and SQRTISWAP for the area `−1/16` (areas and
+operator read from the regenerated gate map / model). -/
+theorem iswap_calibrated_exp (g : ℝ) (hg : g ≠ 0) :
+    evolve (((pulseCoeff g (((-1 : ℤ) : ℝ) / ((8 : ℕ) : ℝ)) : ℝ) : ℂ) • ((ctlG_coef Real.pi : ℝ) : ℂ) • termsMat ctlG_terms)
+      (pulseDur g (((-1 : ℤ) : ℝ) / ((8 : ℕ) : ℝ))) = G.iswap_ := by
+  rw [← exchProp_eq_exp]; exact (iswap_calibrated g hg).2.2.1
+
+theorem sqrtiswap_calibrated_exp (g : ℝ) (hg : g ≠ 0) :
+    evolve (((pulseCoeff g (((-1 : ℤ) : ℝ) / ((16 : ℕ) : ℝ)) : ℝ) : ℂ) • ((ctlG_coef Real.pi : ℝ) : ℂ) • termsMat ctlG_terms)
+      (pulseDur g (((-1 : ℤ) : ℝ) / ((16 : ℕ) : ℝ))) = G.sqrtiswap_ := by
+  rw [← exchProp_eq_exp]; exact (sqrtiswap_calibrated g hg).2.2.1
+
+example : evolve (((pulseCoeff (-3 : ℝ) (((-1 : ℤ) : ℝ) / ((8 : ℕ) : ℝ)) : ℝ) : ℂ) • ((ctlG_coef Real.pi : ℝ) : ℂ) • termsMat ctlG_terms)
+    (pulseDur (-3 : ℝ) (((-1 : ℤ) : ℝ) / ((8 : ℕ) : ℝ))) = G.iswap_ := iswap_calibrated_exp (-3) (by norm_num)
 
 /-! ## the coupling label -/
 
@@ -293,5 +347,42 @@ example :
     intro x hx
     simp only [List.mem_cons, List.not_mem_nil, or_false] at hx
     rcases hx with rfl | rfl | rfl | rfl <;> norm_num
+
+
+/-- **end_to_end_exp_partial.**  `end_to_end_partial` with the ideal propagator of every instruction DEFINED as the
+matrix exponential of the control Hamiltonian of its channel on the `N`-qubit register (`instrPropExp`:
+`exp(−i·dur·coeff·2π·H_label)`, `H_label` = the embedded Pauli operator resp. `XX+YY`): under the same hypotheses the
+compiler succeeds, every instruction has such a propagator, it equals the operator of the gate it was compiled from,
+and `e^{iφ}` times their product — in circuit order and in every scheduled time order that respects the
+dependencies — is the circuit's unitary `U`. -/
+theorem end_to_end_exp_partial (circular pre : Bool) (N : ℕ) (ρ : ℕ → ℝ) (P : Params ℝ) (hP : ParamsOK circular N P)
+    (hroute : RouteStageDen N ρ) (gs out : List Gate) (hg : ∀ g ∈ gs, InClass N g)
+    (hph : ∀ g ∈ gs, phOK g = true) (h2q : pre = false → ∀ g ∈ gs, g.qubits.length ≤ 2)
+    (ht : transpileV tables pre (deviceSpec (chainDev circular)) N gs = .ok out)
+    (U : Matrix (St N) (St N) ℂ) (hU : denG N ρ gs = some U) (phase0 old : ℝ) :
+    ∃ (is : List (Instr ℝ)) (φ : ℝ) (ws : List (Matrix (St N) (St N) ℂ)),
+      compile Real.pi (Ang.eval ρ) N P phase0 out = .ok (is, φ) ∧
+      is.mapM (instrPropExp circular N) = some ws ∧
+      is.mapM (fun i => semD N ρ i.gate) = some ws ∧
+      reportedPhase old φ = phaseSum (Ang.eval ρ) out ∧
+      GateC.phase (reportedPhase old φ) • ordProd ws = U ∧
+      ∀ (st : ℕ → ℝ) (σ : List ℕ), (∀ i ∈ is, 0 < i.dur) → DepRespected is st →
+        σ.Perm (List.range is.length) → TimeOrdered st σ →
+        GateC.phase (reportedPhase old φ) • ordProd (σ.map fun k => ws.getD k 1) = U := by
+  obtain ⟨is, φ, ws, h1, _, _, h4, h5, h6, h7, _, h9⟩ :=
+    end_to_end_partial circular pre N ρ P hP hroute gs out hg hph h2q ht U hU phase0 old
+  refine ⟨is, φ, ws, h1, ?_, h5, h6, h7, h9⟩
+  rw [show instrPropExp circular N = instrProp circular N from funext (instrPropExp_eq circular N)]
+  exact h4
+
+-- a concrete instruction: the RX(π/2) pulse on qubit 1 of an open chain of 3 has an exponential propagator
+example : ∃ A, instrPropExp false 3 ⟨⟨.RX, [1], [], .pi8 4⟩, some ("sx", 1), (1 : ℝ) / 4, 1 / 2⟩ = some A := by
+  rw [instrPropExp_eq]
+  unfold instrProp
+  have h : control? false 3 "sx" 1 = some (.single .x 1) := by decide
+  simp only [h, hamCoef_sx]
+  unfold placeL
+  rw [dif_pos ⟨rfl, List.nodup_singleton _, by simp⟩]
+  exact ⟨_, rfl⟩
 
 end QipVerif.C06
